@@ -8,7 +8,9 @@ Case lines (see harness.cpp / driver.ml):
   ct <kind> <w> <bits>                                 two fixed scripts evaluated by the compiler (constant evaluation)
 kind = bs (etl::bitset<bits>, w = 64) | bb (etl::basic_bitset<bits, uint<w>_t>)
 ops: sa ra fa not | s p v | r p | f p | rs p v | rc p q | rf p | and or xor andf orf xorf | int v |
-     str len codes pos n zero one | sw | t p
+     str len codes pos n zero one | sw | t p |
+     rcs p q (cur[p] = cur[q], one object) | ands ors xors (cur op= cur) |
+     cstr len codes counted zero one (char const* constructor; the array is the codes + NUL; counted: n = len, else npos)
 """
 ID = "C17"
 LEVEL = "proof"
@@ -19,21 +21,24 @@ HARNESSES = [
                "-fno-sanitize-recover=all"]},
 ]
 
-WIDTHS = [1, 7, 8, 9, 31, 32, 33, 63, 64, 65, 127, 128, 129]
+WIDTHS = [1, 7, 8, 9, 31, 32, 33, 63, 64, 65, 127, 128, 129, 257]
 SMALL = [1, 7, 8, 9]
 KINDS = [("bs", 64), ("bb", 8), ("bb", 16), ("bb", 32), ("bb", 64)]
 NPOS = 2**64 - 1
 
-RULE = ("widths {1,7,8,9,31,32,33,63,64,65,127,128,129} x {etl::bitset, basic_bitset<uint8/16/32/64>}; "
+RULE = ("widths {1,7,8,9,31,32,33,63,64,65,127,128,129} and 257 (count() beyond an 8-bit counter) x {etl::bitset, basic_bitset<uint8/16/32/64>}; "
         "widths <= 9: every value x every single operation (whole-set, every position incl. the padding "
         "positions and one past the storage, proxy ops, queries) for etl::bitset and basic_bitset<uint8> (every 5th "
         "value for uint16/32/64 in the quick tier, all in thorough); width 7: every pair of values under &=,|=,^= "
         "for etl::bitset (free operators on every 8th pair; basic_bitset pairs sampled in quick); all widths: "
         "seeded random histories (8-24 steps) mixing whole-set, "
         "single-bit, proxy, binary, integer- and string-constructor steps with positions biased to word and width "
-        "boundaries, every second one also replayed as a raw-storage (words) comparison; string constructors with "
+        "boundaries, aliased operands (cur[p] = cur[q] inside one object incl. p = q - every pair at widths <= 9 -, "
+        "x &= x, x |= x, x ^= x), every second one also replayed as a raw-storage (words) comparison; string constructors with "
         "lengths around the width, pos/n around the ends, custom and coinciding zero/one, foreign characters inside "
-        "and outside the used range; to_string with custom characters; "
+        "and outside the used range; the char const* constructors (counted and NUL-terminated, a NUL inside the array, NUL as "
+        "zero/one character, all-default overload); every mutator's returned reference is compared with the object, "
+        "size(), != and copy == original are checked after every step; to_string with custom characters; "
         "popcount fallback exhaustively for 8 bit and on boundary/random values above. "
         "non-trivial = distinct case line with at least one non-contract step and a set bit somewhere")
 
@@ -57,9 +62,14 @@ def positions(bits, w, rng, k=3):
     return c
 
 
-def bad_positions(bits, w):
+def bad_positions(bits, w, far=False):
     top = nwords(bits, w) * w
-    return sorted({bits, bits + 1, top - 1, top, top + 1, bits + 64, bits + 200} - set(range(bits)))
+    # 256 / 65536 + a valid position: a position truncated to an 8 / 16 bit type would look valid again
+    # (the 65536 ones only where far=True: a unary position of that size costs the extracted model ~5 ms)
+    c = {bits, bits + 1, top - 1, top, top + 1, bits + 64, bits + 200, 256, 256 + bits - 1}
+    if far:
+        c |= {65536, 65536 + bits // 2}
+    return sorted(c - set(range(bits)))
 
 
 def int_values(bits, rng, k):
@@ -74,6 +84,25 @@ def int_values(bits, rng, k):
 def str_op(chars, pos, n, zero, one):
     return "str %d %s %d %d %d %d" % (len(chars), " ".join(map(str, chars)), pos, n, zero, one) if chars else \
            "str 0 %d %d %d %d" % (pos, n, zero, one)
+
+
+def cstr_op(chars, counted, zero, one):
+    return "cstr %d %s %d %d %d" % (len(chars), " ".join(map(str, chars)), int(counted), zero, one) if chars else \
+           "cstr 0 %d %d %d" % (int(counted), zero, one)
+
+
+def rand_cstr(rng, bits):
+    """a char const* constructor step: lengths around the width, sometimes a NUL or a foreign character inside,
+    sometimes NUL as the zero character"""
+    ln = max(rng.choice([bits, bits - 1, bits + 1, bits + 3, rng.randint(0, bits + 3)]), 0)
+    zero, one = rng.choice([(48, 49), (48, 49), (65, 66), (0, 49), (49, 48)])
+    t = rand_str(rng, ln, zero, one)
+    r = rng.random()
+    if ln > 0 and r < 0.25:
+        t[rng.randrange(ln)] = 0
+    elif ln > 0 and r < 0.35:
+        t[rng.randrange(ln)] = rng.choice([c for c in (50, 47, 255) if c not in (zero, one)])
+    return cstr_op(t, rng.random() < 0.5, zero, one)
 
 
 def rand_str(rng, length, zero=48, one=49, p_one=0.5):
@@ -122,6 +151,18 @@ def random_history(rng, kind, w, bits, length):
         p = rng.choice(pos) if rng.random() < 0.7 else rng.randrange(bits)
         if rng.random() < 0.04:
             p = rng.choice(bad)
+        # aliased operands and the char const* constructor (review additions)
+        x = rng.random()
+        if x < 0.05:
+            q = rng.choice(pos) if rng.random() < 0.9 else rng.choice(bad + [p])
+            ops.append("rcs %d %d" % (p, q))
+            continue
+        if x < 0.07:
+            ops.append(rng.choice(["ands", "ors", "xors"]))
+            continue
+        if x < 0.09 and full:
+            ops.append(rand_cstr(rng, bits))
+            continue
         if r < 0.08:
             ops.append("sa")
         elif r < 0.12:
@@ -188,6 +229,22 @@ def string_cases(rng, bits, quick):
                         k = rng.randrange(ln)
                         t[k] = rng.choice([c for c in (50, 47, 97, 0, 255) if c not in (zero, one)])
                         out.append(hist("bs", 64, bits, ["sa", str_op(t, pos, n, zero, one), "t 0"]))
+    # char const* constructor: counted / NUL-terminated, NUL inside the array, NUL as zero or one, foreign characters
+    for ln in lens:
+        for counted in (0, 1):
+            for zero, one in ((48, 49), (65, 66), (0, 49), (32, 0), (120, 120)):
+                for variant in range(3 if quick else 8):
+                    s = rand_str(rng, ln, zero, one)
+                    if ln > 0 and variant % 3 == 1:
+                        s[rng.randrange(ln)] = 0
+                    if ln > 0 and variant % 3 == 2:
+                        s[rng.randrange(ln)] = rng.choice([c for c in (50, 47, 97, 255) if c not in (zero, one)])
+                    ops = [cstr_op(s, counted, zero, one)]
+                    if bits > 1:
+                        ops.append("t %d" % rng.randrange(bits))
+                    out.append(hist("bs", 64, bits, ["sa"] + ops))
+                    if variant == 0:
+                        out.append(words("bs", 64, bits, ops))
     for _ in range(10 if quick else 100):
         zero, one = rng.choice(alph[:5])
         if zero == one:
@@ -218,6 +275,18 @@ def gen(tier, rng):
                     for q in list(range(bits)) + bad_positions(bits, w)[:2]:
                         ops += ["ra" if (p + q) % 2 else "sa", "rc %d %d" % (p, q)]
                 out.append(hist(kind, w, bits, ops))
+            # proxy copy inside ONE object: cur[p] = cur[q] for every pair of positions (incl. p = q and failing ones)
+            vals = sorted({0, 2**bits - 1, 0x155 % 2**bits, 0xAA % 2**bits} | {rng.randrange(2**bits) for _ in range(3)}) \
+                if quick else range(2**bits)
+            allq = list(range(bits)) + bad_positions(bits, w)[:2]
+            for v in vals:
+                ops = []
+                for p in allq:
+                    for q in allq:
+                        ops += ["int %d" % v, "rcs %d %d" % (p, q)]
+                out.append(hist(kind, w, bits, ops))
+                if v == vals[-1]:
+                    out.append(words(kind, w, bits, ops))
     # --- B. width 7 (and 1): every pair of values under the binary operations
     #     (one line per right operand b: the extracted model recomputes its constants per line)
     for bits in (1, 7):
@@ -231,11 +300,17 @@ def gen(tier, rng):
                     for o in ("and", "or", "xor") + (("andf", "orf", "xorf") if free else ()):
                         ops += ["int %d" % a, o]
                 out.append(hist(kind, w, bits, ops))
+            # aliased operands: x op= x for every value
+            ops = []
+            for a in range(2**bits):
+                for o in ("ands", "ors", "xors"):
+                    ops += ["int %d" % a, o]
+            out.append(hist(kind, w, bits, ops))
     # --- C. all widths: random histories (+ raw storage twins)
     for bits in WIDTHS:
         # the extracted model costs ~5 us per bit and step (unary positions): fewer, not shorter, histories
         # at the large widths in the quick tier
-        nh = {"quick": 150 if bits <= 9 else (70 if bits <= 33 else (36 if bits <= 65 else 24)), "search": 300}.get(tier, 2500)
+        nh = {"quick": 150 if bits <= 9 else (70 if bits <= 33 else (36 if bits <= 65 else (24 if bits <= 129 else 10))), "search": 300}.get(tier, 2500 if bits <= 129 else 600)
         for kind, w in KINDS:
             for k in range(nh):
                 ops = random_history(rng, kind, w, bits, rng.randint(8, 24))
@@ -247,8 +322,16 @@ def gen(tier, rng):
             ops += ["t %d" % p for p in positions(bits, w, rng)] + ["t %d" % p for p in bad_positions(bits, w)]
             for p in positions(bits, w, rng):
                 ops += ["s %d 1" % p, "f %d" % p, "rf %d" % p, "rs %d 1" % p, "r %d" % p, "s %d 1" % p]
-            for p in bad_positions(bits, w):
-                ops += ["s %d 1" % p, "f %d" % p, "rf %d" % p, "rs %d 1" % p, "r %d" % p, "rc 0 %d" % p, "rc %d 0" % p]
+            for p in bad_positions(bits, w, far=True):
+                ops += ["s %d 1" % p, "f %d" % p, "rf %d" % p, "rs %d 1" % p, "r %d" % p, "rc 0 %d" % p, "rc %d 0" % p,
+                        "rcs 0 %d" % p, "rcs %d 0" % p]
+            # aliased operands at every width: proxy copy between the boundary positions of one object, x op= x
+            ops += ["ra"]
+            bp = positions(bits, w, rng)
+            for i, p in enumerate(bp):
+                ops += ["s %d 1" % p, "rcs %d %d" % (bp[(i + 1) % len(bp)], p), "rcs %d %d" % (p, p),
+                        "rcs %d %d" % (p, bp[(i + 2) % len(bp)])]
+            ops += ["ors", "ands", "fa", "xors", "sa", "ands", "xors"]
             out.append(hist(kind, w, bits, ops))
             out.append(words(kind, w, bits, ops))
             # integer constructor boundaries
